@@ -181,7 +181,9 @@ class ModbusAsciiFramer(ModbusFramer):
                 else:
                     _logger.error("Not a valid unit id - {}, "
                                   "ignoring!!".format(self._header['uid']))
-                    self.resetFrame()
+                    # skip this frame only: the frames queued behind it
+                    # may well be for one of our units
+                    self.advanceFrame()
             else:
                 break
 
